@@ -67,6 +67,71 @@ def run_blockwire(ctx, found_on_panic=True):
 
 
 
+CONVERT_WHAT = ("prost decode + format::convert::proto_block_to_token_block / token_block_to_proto_block (terms, sets and maps "
+                "rebuilt as BTreeSet / BTreeMap, operator numbers, scopes, check kinds, key and symbol tables, the version "
+                "gates and the feature detector) vs Model.Convert.conv_block / unconv_block over Model.BlockWire.decode_block")
+CONVERT_RULE = ("convertible-biased structured blocks for Datalog 3.0-3.3 content with the declared version drawn around the "
+                "content's level (every term kind; sets and maps in arbitrary order, with duplicates, mixed kinds, variables "
+                "and nested sets at a 0 / 2 / 8 % defect rate per site; every unary and binary operator number and the ones "
+                "just outside; closures; ffi names present or missing; scope types and key indices incl. negative; check "
+                "kinds incl. out of range; symbols incl. default-table entries; key tables with valid ed25519 and secp256r1 "
+                "keys, the uncompressed form of the same key, off-curve and wrong-size keys, unknown algorithms, duplicates), "
+                "first-party and third-party; the conformance samples' blocks; blocks built by the library from the C04 "
+                "generator; the same re-declared with versions absent / 0 / 2..7 / u32::MAX; wild structures, raw trees, merge "
+                "probes, byte mutations; distinct by (bytes, third-party flag), non-trivial when prost decodes more than a "
+                "bare header")
+
+
+def run_convert(ctx, found_on_panic=True, extra=""):
+    """The conversion of a decoded block into the token block (format/convert.rs) and back."""
+    outdir = os.path.join(GEN, ctx.pid + "_convert")
+    summ = run_harness(ctx, "h_convert", extra, outdir)
+    files = summ.get("files", [])
+    ml = sorted(f for f in files if "/CV_ml_" in f)
+    kv = sorted(f for f in files if f.endswith(".v"))
+    bad, _ = run_ocaml_shards(ml, CONVERT_WHAT, "convert")
+    kbad, _, _ = run_kernel_shards(kv, CONVERT_WHAT)
+    cov = {k: v for k, v in summ.items() if k not in ("files", "family")}
+    cov["disagreements"] = len(bad)
+    cov["kernel_shards"] = len(kv)
+    cov["rule"] = CONVERT_RULE
+    ctx.coverage["block_conversion_correspondence"] = cov
+    ctx.coverage["traces_validated_against_impl"] = ctx.coverage.get("traces_validated_against_impl", 0) + summ.get("evaluations", 0)
+    ctx.kernel_lemmas += len(kv)
+    ctx.kernel_ok += len(kv) if not kbad else 0
+    lines = case_lines(outdir, "CV")
+    info = _info(outdir, "CV")
+    for i in summ.get("panics", [])[:5]:
+        ctx.violation({"family": CONVERT_WHAT, "case_index": i, "info": info[i][:4000] if i < len(info) else None,
+                       "violated_clause": "proto_block_to_token_block / token_block_to_proto_block panicked on a decoded block"},
+                      found_on_panic)
+    if kbad and not bad:
+        ctx.violation({"family": CONVERT_WHAT, "theorem_or_correspondence": "in-kernel replay disagrees with extracted model",
+                       "kernel_bad": kbad[:10]}, False)
+    # (clause, is the case itself a failing input of the property?)
+    names = {"CVDecode": ("prost and the model disagree on whether the block bytes decode", False),
+             "CVAccept true": ("the library refuses a block the conversion model accepts", False),
+             "CVAccept false": ("the library accepts a block that the conversion model refuses (version gate, malformed term, "
+                                "operator, scope, key or symbol table)", True),
+             "CVClass": ("the library and the model refuse the block for different reasons", False),
+             "CVValue": ("the token block the library builds from the bytes differs from the model's (terms, set / map "
+                         "contents, operators, scopes, kinds, tables or version)", True),
+             "CVBack": ("token_block_to_proto_block writes other bytes than the model for the same token block", True),
+             "CVSelf": ("the written form of the token block does not read back to the same block", True),
+             "CVOracle": ("the key oracle table has no entry for a key of the block", False)}
+    for n, i in enumerate(bad):
+        if n >= 6:
+            break
+        case_text = lines[i] if i < len(lines) else "?"
+        model_text = kernel_eval("Model.ConvertCases", "cvcase_model (%s)" % case_text)
+        clause, found = next((v for k, v in names.items() if k in model_text), ("the library and the conversion model disagree", False))
+        ctx.violation({"family": CONVERT_WHAT, "case_index": i, "info": (info[i] if i < len(info) else "")[:6000],
+                       "case": case_text if len(case_text) < 200000 else case_text[:200000],
+                       "model_result": model_text[:1000], "violated_clause": clause,
+                       "theorem_or_correspondence": CONVERT_WHAT}, found)
+    return summ
+
+
 class WireFamily(Family):
     binary = "h_wire"
     extract = "wire"
@@ -170,12 +235,19 @@ class C02(WireFamily):
                            "theorem_or_correspondence": self.correspondence}, found)
         # second stream: the wire format of the block contents (theorems C02_block_content_*)
         run_blockwire(ctx)
+        # third stream: decoded block -> token block -> decoded block (theorems C02_block_convert_*)
+        run_convert(ctx)
 
     def replay_case(self, ctx, obj):
         case = obj.get("case")
         if not case or case == "?":
             print("replay: no case recorded; re-run ./check %s" % ctx.pid)
             return 0
+        if "CVCase" in case:
+            r = kernel_eval("Model.ConvertCases", "cvcase_model (%s)" % case)
+            print("conversion model on the recorded case: %s" % r[:600])
+            print("re-run ./check %s to ask the library again on the current tree" % ctx.pid)
+            return 0 if "CVAgree" in r else 1
         if "BWDecode" in case:
             r = kernel_eval("Model.BlockWireCases", "bwcase_model (%s)" % case)
             print("block wire model on the recorded case: %s" % r[:600])
